@@ -304,42 +304,36 @@ Fixpoint join (sep : str) (l : list str) : str :=
 Definition is_leaf (c : ctree) : bool := match c with CLeaf _ => true | _ => false end.
 Definition is_or (c : ctree) : bool := match c with COr _ => true | _ => false end.
 
+(* arguments of AND / OR in order; the class attributes are threaded through; the first error ends it *)
+Definition render_args (f : ctree -> (N -> tpls) -> (N -> tpls) * outcome str) (wrap : ctree -> str -> str)
+  : list ctree -> (N -> tpls) -> (N -> tpls) * outcome (list str) :=
+  fix go (l : list ctree) (tp : N -> tpls) : (N -> tpls) * outcome (list str) :=
+    match l with
+    | [] => (tp, Ok [])
+    | a :: rest =>
+        let '(tp1, x) := f a tp in
+        match x with
+        | Ok s => let '(tp2, y) := go rest tp1 in (tp2, obind y (fun ss => Ok (wrap a s :: ss)))
+        | SigmaErr e => (tp1, SigmaErr e)
+        | Crash e => (tp1, Crash e)
+        end
+    end.
+Definition wrap_and (a : ctree) (s : str) : str := if is_or a then group s else s.
+Definition wrap_or (a : ctree) (s : str) : str := s.
+Definition not_text (ne : bool) (a : ctree) (s : str) : str :=
+  let body := if is_leaf a then s else group s in if ne then body else s_not ++ body.
+
 Fixpoint render (ne : bool) (cls : N) (neg : bool) (c : ctree) (tp : N -> tpls) {struct c}
   : (N -> tpls) * outcome str :=
   match c with
   | CLeaf d => render_leaf ne cls neg d tp
   | CNot a =>
-      let '(tp1, r) := render ne cls true a tp in
-      (tp1, obind r (fun s => let body := if is_leaf a then s else group s in
-                              Ok (if ne then body else s_not ++ body)))
+      let '(tp1, r) := render ne cls true a tp in (tp1, obind r (fun s => Ok (not_text ne a s)))
   | CAnd l =>
-      let '(tp1, r) :=
-        (fix go (l : list ctree) (tp : N -> tpls) : (N -> tpls) * outcome (list str) :=
-           match l with
-           | [] => (tp, Ok [])
-           | a :: rest =>
-               let '(tp1, x) := render ne cls neg a tp in
-               match x with
-               | Ok s => let '(tp2, y) := go rest tp1 in
-                         (tp2, obind y (fun ss => Ok ((if is_or a then group s else s) :: ss)))
-               | SigmaErr e => (tp1, SigmaErr e)
-               | Crash e => (tp1, Crash e)
-               end
-           end) l tp in
+      let '(tp1, r) := render_args (render ne cls neg) wrap_and l tp in
       (tp1, obind r (fun ss => Ok (join s_and ss)))
   | COr l =>
-      let '(tp1, r) :=
-        (fix go (l : list ctree) (tp : N -> tpls) : (N -> tpls) * outcome (list str) :=
-           match l with
-           | [] => (tp, Ok [])
-           | a :: rest =>
-               let '(tp1, x) := render ne cls neg a tp in
-               match x with
-               | Ok s => let '(tp2, y) := go rest tp1 in (tp2, obind y (fun ss => Ok (s :: ss)))
-               | SigmaErr e => (tp1, SigmaErr e)
-               | Crash e => (tp1, Crash e)
-               end
-           end) l tp in
+      let '(tp1, r) := render_args (render ne cls neg) wrap_or l tp in
       (tp1, obind r (fun ss => Ok (join s_or ss)))
   end.
 
@@ -374,14 +368,9 @@ Fixpoint conv_conds (E : env) (cls : N) (dets : list (str * list ditem)) (w : wo
 
 (* Backend.convert_rule up to the except clauses: the pipeline object is built only when there is
    none yet; otherwise the existing one is used whatever format it was built for *)
-Definition conv_rule_raw (E : env) (w : world) (b : nat) (bk : backend) (fmt : N) (r : rule)
+Definition conv_with (E : env) (w : world) (L : nat) (lfmt : N) (bk : backend) (fmt : N) (r : rule)
   : world * outcome (list str) :=
-  let '(w1, L, lfmt) :=
-    match b_last bk with
-    | Some (L, f) => (w, L, f)
-    | None => (init_pipeline E w b bk fmt, w_next w, fmt)
-    end in
-  let w2 := set_ps w1 L ps0 in
+  let w2 := set_ps w L ps0 in
   let '(w3, res) := apply_items w2 L r (pipe_pairs E (b_cls bk) (b_user bk) lfmt) in
   match res with
   | inr e => (w3, SigmaErr e)
@@ -389,6 +378,12 @@ Definition conv_rule_raw (E : env) (w : world) (b : nat) (bk : backend) (fmt : N
       let st := ps_state (w_ps w3 L) in
       let '(w4, qs) := conv_conds E (b_cls bk) (r_dets r') w3 (r_conds r') in
       (w4, obind qs (fun l => Ok (map (finalize fmt st) l)))
+  end.
+Definition conv_rule_raw (E : env) (w : world) (b : nat) (bk : backend) (fmt : N) (r : rule)
+  : world * outcome (list str) :=
+  match b_last bk with
+  | Some (L, f) => conv_with E w L f bk fmt r
+  | None => conv_with E (init_pipeline E w b bk fmt) (w_next w) fmt bk fmt r
   end.
 
 (* ---------- operations ---------- *)
